@@ -156,6 +156,27 @@ type penv struct {
 	ids      map[string]vaa.VAAID
 	events   *reporter.AttestationEventReporter
 	quorumC  <-chan *vaa.VAA
+	faultDB  bool   // the processor's store handle was replaced by one that fails every call
+	faultDir string
+}
+
+// breakStore gives the processor a store handle that has been closed: every lookup and every write fails from now on.
+// The shared store the harness reads stays as it is (nothing more is written to it).
+func (e *penv) breakStore() error {
+	dir, err := os.MkdirTemp(os.Getenv("VERIF_SCRATCH"), "proc-faultdb-")
+	if err != nil {
+		return err
+	}
+	d2, err := db.Open(dir)
+	if err != nil {
+		return err
+	}
+	if err := d2.Close(); err != nil {
+		return err
+	}
+	e.p.db = d2
+	e.faultDB, e.faultDir = true, dir
+	return nil
 }
 
 const ownKeyIdx = 0
@@ -203,6 +224,10 @@ func newEnv(c procCase, reqCap int) *penv {
 // wipe removes every id of the case from the shared store: cases use a fixed namespace so that a
 // saved case replays bit-identically in a fresh process.
 func (e *penv) wipe() {
+	if e.faultDir != "" {
+		_ = os.RemoveAll(e.faultDir)
+		e.faultDir = ""
+	}
 	for _, id := range e.ids {
 		if err := e.d.VerifDelete(id); err != nil {
 			panic(err)
@@ -446,7 +471,7 @@ func obsAcceptable(o *gossipv1.SignedObservation, applicable *setInfo) (ethcommo
 
 // ------------------------------------------------------------------ inbound VAA builders
 
-var inboundKinds = []string{"quorum", "quorum", "all", "quorum-1", "prev-set", "wrong-order", "dup-signer", "outsider", "garbage", "truncated", "flip-body", "other-subset", "nosigs", "index-oob", "dup-last", "swap-last-two", "pad-with-last"}
+var inboundKinds = []string{"quorum", "quorum", "all", "quorum-1", "prev-set", "wrong-order", "dup-signer", "outsider", "garbage", "truncated", "flip-body", "other-subset", "nosigs", "index-oob", "dup-last", "swap-last-two", "pad-with-last", "quorum-1-other-index", "one-sig-other-index", "quorum-other-index"}
 
 func subset(n, k int, seed uint64) []int {
 	if k > n {
@@ -499,6 +524,18 @@ func (e *penv) mkInbound(m *msgInfo, kind string, seed uint64) []byte {
 		return signedVAA(m, set, set.Index, subset(n, q-1, seed))
 	case "nosigs":
 		return signedVAA(m, set, set.Index, nil)
+	// the header's set index is not covered by the signatures: anyone can rewrite it. Genuine signatures of members of
+	// the current set at their positions, under a header that names another set
+	case "quorum-1-other-index":
+		return signedVAA(m, set, set.Index+1+uint32(seed%3), subset(n, q-1, seed))
+	case "one-sig-other-index":
+		other := set.Index + 1
+		if seed%2 == 0 && set.Index > 0 {
+			other = set.Index - 1
+		}
+		return signedVAA(m, set, other, subset(n, 1, seed))
+	case "quorum-other-index":
+		return signedVAA(m, set, set.Index+1, subset(n, q, seed))
 	case "prev-set":
 		if len(e.sets) >= 2 {
 			prev := e.sets[len(e.sets)-2]
